@@ -10,7 +10,8 @@ class C01(Prop):
     design_ref = "DESIGN.md §7 C01"
     models = [ModelRun("apply", apply_gen.gen_restart, lambda c: sum(1 for o in c.ops if o.startswith("req")) >= 3 and "dump" in c.ops,
                        spec_needs_impl=True, jobs=8, shrinkable=True,
-                       regions={"naming.metadata_changes": apply_gen.region_metadata},
+                       regions={"naming.metadata_changes": apply_gen.region_metadata,
+                                "namespace.upgrade_of_weak_entry": apply_gen.region_ns_upgrade},
                        search=lambda rng, b: apply_gen.gen_restart(rng, "thorough")[:b], rule=(
         "three complete nodes as child processes (see C07); node L is never stopped and serves as the record of what was "
         "served; node R (and sometimes F) is compacted (do_log_compaction), restarted gracefully or killed (-9, after a "
